@@ -1,5 +1,6 @@
 import GlueVerif.Sexp
 import GlueVerif.Model.C18Viewer
+import GlueVerif.Model.C18Combo
 /-! Line-protocol driver for C18 (viewers and attribute pickers mirror the collection).
 
 Family `view`: `(view (nData nColors cls (op …)) <python snapshots>)`, one snapshot before the
@@ -122,28 +123,309 @@ def viewBranch (ops : List VOp) (states : List VState) : String :=
   b "e" (states.any fun v => v.err) ++
   b "l" (states.any fun v => v.arts.length ≥ 4)
 
-def stepView (n c : Sexp) (ops : List Sexp) (pyout : Sexp) : String :=
+/-- C12's known finding F12 seen from here: the patch table of `glue/core/state.py` rewrites the class
+names `glue.viewers.{histogram,profile}.layer_artist.*LayerArtist` to `glue_qt.…`, so
+`Viewer.__setgluestate__` raises (`Module 'glue_qt…' not found`) when a saved histogram / profile
+viewer has at least one layer.  The viewer model (`restoreV`) describes the scatter and image
+viewers; for the two patched classes the driver predicts the failure (`dead` from then on). -/
+def restoreFails (cls : String) (v : VState) (op : VOp) : Bool :=
+  op == .restore && (cls == "hi" || cls == "pr") && !v.arts.isEmpty
+
+def stepView (n c cls : Sexp) (ops : List Sexp) (pyout : Sexp) : String :=
   match n.toNat?, c.toNat?, ops.mapM vopOf? with
   | some n, some colors, some ops =>
+    let cls := match cls with | .atom a => a | _ => ""
     let v0 := C18Viewer.init n colors
-    let states := (ops.foldl (fun (acc : List VState × VState) op =>
-        let v' := C18Viewer.step acc.2 op
-        (acc.1 ++ [v'], v')) ([v0], v0)).1
-    let named := (states.foldl (fun (acc : List (Sexp × Want) × Ren × Ren) v =>
-        let ms := renExtend acc.2.1 (subIdsOf v)
-        let ma := renExtend acc.2.2 (artIdsOf v)
-        (acc.1 ++ [(snapshot ms ma v, renWant ms v.want)], ms, ma)) ([], [], [])).1
-    let implok := states.all specOkV
+    -- the trace: `none` once a restore of a patched class has failed
+    let trace := (ops.foldl (fun (acc : List (Option VState) × Option VState) op =>
+        match acc.2 with
+        | none => (acc.1 ++ [none], none)
+        | some v =>
+          if restoreFails cls v op then (acc.1 ++ [none], none)
+          else let v' := C18Viewer.step v op; (acc.1 ++ [some v'], some v')) ([some v0], some v0)).1
+    let states := trace.filterMap id
+    let named := (trace.foldl (fun (acc : List (Sexp × Option Want) × Ren × Ren) ov =>
+        match ov with
+        | none => (acc.1 ++ [(Sexp.atom "dead", none)], acc.2.1, acc.2.2)
+        | some v =>
+          let ms := renExtend acc.2.1 (subIdsOf v)
+          let ma := renExtend acc.2.2 (artIdsOf v)
+          (acc.1 ++ [(snapshot ms ma v, some (renWant ms v.want))], ms, ma)) ([], [], [])).1
+    let dead := trace.any (·.isNone)
+    let implok := !dead && states.all specOkV
     let ok := match pyout with
       | .list pys => pys.length == named.length &&
-          (pys.zip named).all fun (py, (_, w)) => pySnapOk w py
+          (pys.zip named).all fun (py, (_, w)) => match w with
+            | some w => pySnapOk w py
+            | none => false
       | _ => false
-    driverResult (.list (named.map (·.1))) ok implok true (viewBranch ops states)
+    driverResult (.list (named.map (·.1))) ok implok (!dead) (viewBranch ops states ++ (if dead then "D" else "-"))
   | _, _, _ => driverError "view-args"
+
+/-! ## families `combo`, `dcombo`: attribute / dataset pickers
+
+`(combo (nData idx (op …)) <snapshots>)`, snapshot =
+`((F numeric datetime categorical pixel world derived none) (H (id (m (cid kind)…) (dv cid…) (p cid…) (w cid…))…)
+  (c choice…) (s sel) (e T|F) (q depth))`, `choice = N | (sd d) | sm | sdv | sc | (c k)`, `sel = N | k`.
+`F`, `H` are read from the real helper and the real `Data` objects (`H` = `helper._data`). -/
+section Combo
+open GlueVerif.C18Combo
+
+def kindOf? : Sexp → Option Kind
+  | .atom "num" => some .numerical
+  | .atom "cat" => some .categorical
+  | .atom "dt" => some .datetime
+  | .atom "ext" => some .extended
+  | _ => none
+
+def kindSexp : Kind → Sexp
+  | .numerical => .atom "num"
+  | .categorical => .atom "cat"
+  | .datetime => .atom "dt"
+  | .extended => .atom "ext"
+
+def flagOf? : Sexp → Option FlagName
+  | .atom "numeric" => some .numeric
+  | .atom "datetime" => some .datetime
+  | .atom "categorical" => some .categorical
+  | .atom "pixel" => some .pixel
+  | .atom "world" => some .world
+  | .atom "derived" => some .derived
+  | .atom "none" => some .none
+  | _ => none
+
+def copOf? : Sexp → Option C18Combo.COp
+  | .list [.atom "ac", d, k] => do some (.addComp (← d.toNat?) (← kindOf? k))
+  | .list [.atom "ad", d] => d.toNat?.map .addDerived
+  | .list [.atom "rc", d, i] => do some (.removeComp (← d.toNat?) (← i.toNat?))
+  | .list [.atom "rn", d, i] => do some (.rename (← d.toNat?) (← i.toNat?))
+  | .list [.atom "ro", d] => d.toNat?.map .reorder
+  | .list [.atom "rp", d, i] => do some (.replace (← d.toNat?) (← i.toNat?))
+  | .list [.atom "ha", d] => d.toNat?.map .helperAppend
+  | .list [.atom "hr", d] => d.toNat?.map .helperRemove
+  | .list (.atom "hm" :: ds) => (ds.mapM toNat?).map .setMultiple
+  | .list [.atom "fl", f, b] => do some (.setFlag (← flagOf? f) (← b.toBool?))
+  | .list [.atom "dr", d] => d.toNat?.map .dcRemove
+  | .list [.atom "da", d] => d.toNat?.map .dcAppend
+  | .list [.atom "sel", v] => (optNat? v).map .select
+  | .list [.atom "do"] => some .delayOpen
+  | .list [.atom "dc"] => some .delayClose
+  | _ => none
+
+def choiceSexp : Choice → Sexp
+  | .none => .atom "N"
+  | .sepData d => .list [.atom "sd", ofNat d]
+  | .sepMain => .atom "sm"
+  | .sepDerived => .atom "sdv"
+  | .sepCoord => .atom "sc"
+  | .cid c => .list [.atom "c", ofNat c]
+
+def choiceOf? : Sexp → Option Choice
+  | .atom "N" => some .none
+  | .list [.atom "sd", d] => d.toNat?.map .sepData
+  | .atom "sm" => some .sepMain
+  | .atom "sdv" => some .sepDerived
+  | .atom "sc" => some .sepCoord
+  | .list [.atom "c", c] => c.toNat?.map .cid
+  | _ => none
+
+def flagsSexp (F : Flags) : Sexp :=
+  tagged "F" [ofBool F.numeric, ofBool F.datetime, ofBool F.categorical, ofBool F.pixel, ofBool F.world,
+              ofBool F.derived, ofBool F.none]
+
+def flagsOf? : Sexp → Option Flags
+  | .list [.atom "F", a, b, c, d, e, f, g] => do
+    some ⟨← a.toBool?, ← b.toBool?, ← c.toBool?, ← d.toBool?, ← e.toBool?, ← f.toBool?, ← g.toBool?⟩
+  | _ => none
+
+def dsSexp (d : DS) : Sexp :=
+  .list [ofNat d.id, tagged "m" (d.main.map fun p => .list [ofNat p.1, kindSexp p.2]),
+         tagged "dv" (d.derived.map ofNat), tagged "p" (d.pixel.map ofNat), tagged "w" (d.world.map ofNat)]
+
+def dsOf? : Sexp → Option DS
+  | .list [i, .list (.atom "m" :: ms), .list (.atom "dv" :: dv), .list (.atom "p" :: ps), .list (.atom "w" :: ws)] => do
+    let main ← ms.mapM fun e => match e with
+      | .list [c, k] => do some ((← c.toNat?), (← kindOf? k))
+      | _ => none
+    some ⟨← i.toNat?, main, ← dv.mapM toNat?, ← ps.mapM toNat?, ← ws.mapM toNat?⟩
+  | _ => none
+
+def comboSnap (st : CState) : Sexp :=
+  .list [flagsSexp st.F, tagged "H" ((st.hdata.map st.data).map dsSexp),
+         tagged "c" (st.pick.choices.map choiceSexp), tagged "s" [optNatSexp st.pick.sel],
+         tagged "e" [ofBool st.err], tagged "q" [ofNat st.depth]]
+
+/-- Spec verdict on a python helper snapshot; `relevant` = the datasets the client asked for that
+are still in the collection (ghost, computed from the case).  Inside a hub delay block the helper
+has not been told yet: only well-formedness is demanded there. -/
+def pyComboOk (relevant : List Nat) (depth : Nat) : Sexp → Bool
+  | .list [f, .list (.atom "H" :: hs), .list (.atom "c" :: cs), .list [.atom "s", s],
+           .list [.atom "e", _], .list [.atom "q", _]] =>
+    match flagsOf? f, hs.mapM dsOf?, cs.mapM choiceOf?, optNat? s with
+    | some F, some ds, some choices, some sel =>
+      if depth > 0 then true
+      else ds.map (·.id) == relevant && comboOk F ds choices sel
+    | _, _, _, _ => false
+  | _ => false
+
+def stepCombo (n idx : Sexp) (ops : List Sexp) (pyout : Sexp) : String :=
+  match n.toNat?, idx.toInt?, ops.mapM copOf? with
+  | some n, some idx, some ops =>
+    let s0 := cinit n idx
+    let states := (ops.foldl (fun (acc : List CState × CState) op =>
+        let s' := cstep acc.2 op
+        (acc.1 ++ [s'], s')) ([s0], s0)).1
+    let implok := states.all fun st =>
+      st.depth > 0 || comboOk st.F (st.hdata.map st.data) st.pick.choices st.pick.sel
+    let ok := match pyout with
+      | .list pys => pys.length == states.length &&
+          (pys.zip states).all fun (py, st) => pyComboOk st.hdata st.depth py
+      | _ => false
+    -- inside P: the client never clears the selection while `None` is not on offer
+    let p := ((ops.foldl (fun (acc : Bool × CState) op =>
+        let adm := match op with
+          | .select v => POp.admissible acc.2.pick (.select v)
+          | _ => true
+        (acc.1 && adm, cstep acc.2 op)) (true, s0))).1
+    let br := (if states.any (fun st => st.depth > 0) then "d" else "-") ++
+              (if states.any (fun st => st.err) then "e" else "-") ++
+              (if states.any (fun st => st.hdata.length > 1) then "m" else "-") ++
+              (if states.any (fun st => st.pick.sel.isSome) then "s" else "-")
+    driverResult (.list (states.map comboSnap)) ok implok p br
+  | _, _, _ => driverError "combo-args"
+
+/-! `(dcombo (nData auto idx (inDc…) (op …)) <snapshots>)`, snapshot =
+`((D d…) (M d…) (c choice…) (s sel) (e T|F) (q depth))`. -/
+
+def dopOf? : Sexp → Option DOp
+  | .list [.atom "da", d] => d.toNat?.map .dcAppend
+  | .list [.atom "dr", d] => d.toNat?.map .dcRemove
+  | .list [.atom "ha", d] => d.toNat?.map .helperAppend
+  | .list [.atom "hr", d] => d.toNat?.map .helperRemove
+  | .list (.atom "hm" :: ds) => (ds.mapM toNat?).map .setMultiple
+  | .list [.atom "rl", d] => d.toNat?.map .relabel
+  | .list [.atom "sel", v] => (optNat? v).map .select
+  | .list [.atom "do"] => some .delayOpen
+  | .list [.atom "dc"] => some .delayClose
+  | _ => none
+
+def dcomboSnap (st : DState) : Sexp :=
+  .list [tagged "D" (st.inDc.map ofNat), tagged "M" (st.manual.map ofNat),
+         tagged "c" (st.pick.choices.map choiceSexp), tagged "s" [optNatSexp st.pick.sel],
+         tagged "e" [ofBool st.err], tagged "q" [ofNat st.depth]]
+
+def pyDcomboOk (auto : Bool) (manual : List Nat) (depth : Nat) : Sexp → Bool
+  | .list [.list (.atom "D" :: ds), .list (.atom "M" :: _), .list (.atom "c" :: cs), .list [.atom "s", s],
+           .list [.atom "e", _], .list [.atom "q", _]] =>
+    match ds.mapM toNat?, cs.mapM choiceOf?, optNat? s with
+    | some D, some choices, some sel =>
+      if depth > 0 then true else dcomboOk (if auto then D else manual) choices sel
+    | _, _, _ => false
+  | _ => false
+
+def stepDcombo (n auto idx inDc : Sexp) (ops : List Sexp) (pyout : Sexp) : String :=
+  match n.toNat?, auto.toBool?, idx.toInt?, inDc.toNats?, ops.mapM dopOf? with
+  | some n, some auto, some idx, some inDc, some ops =>
+    let s0 := dinit n auto idx inDc
+    let states := (ops.foldl (fun (acc : List DState × DState) op =>
+        let s' := dstep acc.2 op
+        (acc.1 ++ [s'], s')) ([s0], s0)).1
+    let implok := states.all fun st =>
+      st.depth > 0 || dcomboOk (if st.auto then st.inDc else st.manual) st.pick.choices st.pick.sel
+    let ok := match pyout with
+      | .list pys => pys.length == states.length &&
+          (pys.zip states).all fun (py, st) => pyDcomboOk auto st.manual st.depth py
+      | _ => false
+    let p := ((ops.foldl (fun (acc : Bool × DState) op =>
+        let adm := match op with
+          | .select v => POp.admissible acc.2.pick (.select v)
+          | _ => true
+        (acc.1 && adm, dstep acc.2 op)) (true, s0))).1
+    let br := (if auto then "a" else "m") ++ (if states.any (fun st => st.depth > 0) then "d" else "-") ++
+              (if states.any (fun st => st.err) then "e" else "-")
+    driverResult (.list (states.map dcomboSnap)) ok implok p br
+  | _, _, _, _, _ => driverError "dcombo-args"
+
+/-! `(axes ((ndim…) (world…) (op …)) <snapshots>)`, snapshot =
+`((l d…) (r ref) (x tok) (y tok) (xw tok) (yw tok) (e T|F))` or the atom `crash`;
+`tok = N | (d kind axis)`, `kind = p | w`. -/
+open GlueVerif.C18Combo.Axes
+
+def aopOf? : Sexp → Option AOp
+  | .list [.atom "x", i] => i.toNat?.map .setX
+  | .list [.atom "y", i] => i.toNat?.map .setY
+  | .list [.atom "xw", i] => i.toNat?.map .setXW
+  | .list [.atom "yw", i] => i.toNat?.map .setYW
+  | .list [.atom "ref", d] => d.toNat?.map .setRef
+  | .list [.atom "al", d] => d.toNat?.map .addLayer
+  | .list [.atom "rl", d] => d.toNat?.map .removeLayer
+  | _ => none
+
+def attSexp (ref : Option Nat) (kind : String) : Option Nat → Sexp
+  | none => .atom "N"
+  | some i => match ref with
+    | some r => .list [ofNat r, .atom kind, ofNat i]
+    | none => .list [.atom "X", .atom kind, ofNat i]
+
+def axesSnap (world : Nat → Bool) (s : AState) : Sexp :=
+  if s.crashed then .atom "crash" else
+  let wk := match s.ref with
+    | some r => if world r then "w" else "p"
+    | none => "p"
+  .list [tagged "l" (s.layers.map ofNat), tagged "r" [optNatSexp s.ref],
+         tagged "x" [attSexp s.ref "p" s.x], tagged "y" [attSexp s.ref "p" s.y],
+         tagged "xw" [attSexp s.ref wk s.xw], tagged "yw" [attSexp s.ref wk s.yw], tagged "e" [ofBool s.err]]
+
+/-- a python attribute token must name the reference dataset and the expected kind. -/
+def attOf? (ref : Option Nat) (kind : String) : Sexp → Option (Option Nat)
+  | .atom "N" => some none
+  | .list [d, .atom k, i] =>
+    match ref, d.toNat? with
+    | some r, some d' => if d' == r && k == kind then i.toNat?.map some else none
+    | _, _ => none
+  | _ => none
+
+def pyAxesOk (ndim : Nat → Nat) (world : Nat → Bool) : Sexp → Bool
+  | .list [.list (.atom "l" :: ls), .list [.atom "r", r], .list [.atom "x", x], .list [.atom "y", y],
+           .list [.atom "xw", xw], .list [.atom "yw", yw], .list [.atom "e", _]] =>
+    match ls.mapM toNat?, optNat? r with
+    | some layers, some ref =>
+      let wk := match ref with
+        | some r => if world r then "w" else "p"
+        | none => "p"
+      match attOf? ref "p" x, attOf? ref "p" y, attOf? ref wk xw, attOf? ref wk yw with
+      | some x, some y, some xw, some yw => axesOk ndim ⟨layers, ref, x, y, xw, yw, false, false⟩
+      | _, _, _, _ => false
+    | _, _ => false
+  | _ => false
+
+def stepAxes (ndims worlds : Sexp) (ops : List Sexp) (pyout : Sexp) : String :=
+  match ndims.toNats?, worlds.toBools?, ops.mapM aopOf? with
+  | some ndims, some worlds, some ops =>
+    let ndim := fun d => ndims.getD d 2
+    let world := fun d => worlds.getD d false
+    let states := (ops.foldl (fun (acc : List AState × AState) op =>
+        let s' := astep ndim acc.2 op
+        (acc.1 ++ [s'], s')) ([ainit], ainit)).1
+    let implok := states.all (axesOk ndim)
+    let ok := match pyout with
+      | .list pys => pys.length == states.length && pys.all (pyAxesOk ndim world)
+      | _ => false
+    let p := ndims.all (fun n => decide (2 ≤ n))
+    let br := (if states.any (fun s => s.crashed) then "c" else "-") ++
+              (if states.any (fun s => s.err) then "e" else "-") ++
+              (if ops.any (fun o => match o with | .setRef _ => true | _ => false) then "r" else "-")
+    driverResult (.list (states.map (axesSnap world))) ok implok p br
+  | _, _, _ => driverError "axes-args"
+
+end Combo
 
 def step (line : String) : String :=
   match Sexp.parse line with
-  | some (.list [.atom "view", .list [n, c, _cls, .list ops], pyout]) => stepView n c ops pyout
+  | some (.list [.atom "view", .list [n, c, cls, .list ops], pyout]) => stepView n c cls ops pyout
+  | some (.list [.atom "combo", .list [n, idx, .list ops], pyout]) => stepCombo n idx ops pyout
+  | some (.list [.atom "dcombo", .list [n, auto, idx, inDc, .list ops], pyout]) => stepDcombo n auto idx inDc ops pyout
+  | some (.list [.atom "axes", .list [ndims, worlds, .list ops], pyout]) => stepAxes ndims worlds ops pyout
   | _ => driverError "unknown-family"
 
 def main : IO Unit := driverLoop step
